@@ -125,7 +125,75 @@ func vsCountTmp(files map[string][]byte) int {
 	return n
 }
 
+// vsPayload is the canonical logical content of a state: every field except
+// the Checksum the value happens to carry. References are compared on this; the
+// checksum of what Load returns is validated separately against its content.
+func vsPayload(st state.ClusterState) string {
+	c := st.Clone()
+	c.Checksum = ""
+	return vsCanon(c)
+}
+
+var vsDeriveNames = []string{"fresh", "checksum-unset", "stale+applied", "stale+revision", "stale+node", "stale+health", "foreign-checksum", "garbage-checksum"}
+
+// derive turns a published state (checksum filled in for its content, as
+// Snapshot/Load/Decode return it) into what a read-modify-write caller would
+// hand to Save: one or more fields changed, the old checksum still in the
+// struct. Tape value 0 keeps the state as it is.
+func (c *vsC19) derive(role string, st state.ClusterState, pool []state.ClusterState) state.ClusterState {
+	tp := c.r.Tape
+	k := tp.Weighted([]int{5, 1, 2, 1, 1, 1, 1, 1})
+	d := st.Clone()
+	switch k {
+	case 1:
+		d.Checksum = ""
+	case 2: // what the raft log compactor does
+		d.AppliedRaftIndex += uint64(1 + tp.Intn(5))
+	case 3:
+		d.Revision++
+		d.UpdatedAt = d.UpdatedAt.Add(1e9)
+		if tp.Intn(2) == 1 {
+			d.AppliedRaftIndex++
+		}
+	case 4:
+		if len(d.Nodes) > 0 {
+			i := tp.Intn(len(d.Nodes))
+			if tp.Intn(2) == 0 {
+				d.Nodes[i].Name = "derived"
+			} else if d.Nodes[i].Status == state.NodeStatusAlive {
+				d.Nodes[i].Status = state.NodeStatusSuspect
+			} else {
+				d.Nodes[i].Status = state.NodeStatusAlive
+			}
+		}
+	case 5:
+		if len(d.NodeHealthReports) > 0 {
+			d.NodeHealthReports[tp.Intn(len(d.NodeHealthReports))].ReportSeq += 7
+		} else if len(d.Nodes) > 0 {
+			d.NodeHealthReports = append(d.NodeHealthReports, state.NodeHealthReport{NodeID: d.Nodes[tp.Intn(len(d.Nodes))].NodeID, Status: state.NodeStatusAlive, ReportSeq: 1})
+		}
+	case 6:
+		d.Checksum = pool[tp.Intn(len(pool))].Checksum
+	case 7:
+		d.Checksum = "crc32c:00000000"
+	}
+	if err := d.Validate(); err != nil {
+		c.r.Probe("derive.invalid_fallback")
+		d, k = st.Clone(), 0
+	}
+	sum, _ := state.Checksum(d)
+	c.r.Logf("derive %s: %s (carried checksum matches content: %v)", role, vsDeriveNames[k], sum == d.Checksum)
+	c.r.Probe("derived." + vsDeriveNames[k])
+	if d.Checksum != "" && sum != d.Checksum {
+		c.r.Probe("saved_with_stale_checksum")
+		c.stale++
+	}
+	c.r.Config["derive_"+role] = vsDeriveNames[k]
+	return d
+}
+
 type vsC19 struct {
+	stale int // states handed to Save with a checksum that does not match their content
 	r         *simkit.Run
 	base      string
 	prev      *state.ClusterState
@@ -170,12 +238,12 @@ func runC19(t *testing.T, r *simkit.Run) {
 		if pi == ni && len(pool) > 1 && !tp.Chance(1, 8) {
 			pi = (ni + 1 + tp.Intn(len(pool)-1)) % len(pool) // usually a different state (older or newer)
 		}
-		p := pool[pi]
+		p := c.derive("prev", pool[pi], pool)
 		c.prev = &p
 	}
-	c.next = pool[ni]
-	c.third = pool[tp.Intn(len(pool))]
-	c.canonNext = vsCanon(c.next)
+	c.next = c.derive("new", pool[ni], pool)
+	c.third = c.derive("third", pool[tp.Intn(len(pool))], pool)
+	c.canonNext = vsPayload(c.next)
 	r.Config["pool"] = len(pool)
 	r.Config["have_prev"] = havePrev
 	c.workDir = filepath.Join(c.base, "work")
@@ -191,12 +259,11 @@ func runC19(t *testing.T, r *simkit.Run) {
 			r.Fail("save_error", fmt.Sprintf("saving a valid state (rev %d) failed: %v", c.prev.Revision, err), nil)
 			return
 		}
-		got, err := store.Load(ctx)
-		if err != nil || vsCanon(got) != vsCanon(*c.prev) {
-			r.Fail("save_load_mismatch", fmt.Sprintf("load after save of rev %d: err=%v", c.prev.Revision, err), nil)
+		got, ok := c.loadSaved("previous", *c.prev)
+		if !ok {
 			return
 		}
-		c.canonPrev = vsCanon(got)
+		c.canonPrev = vsPayload(got)
 		b, err := os.ReadFile(filepath.Join(c.workDir, vsStateFile))
 		if err != nil {
 			r.Infra("read state file: %v", err)
@@ -234,12 +301,14 @@ func runC19(t *testing.T, r *simkit.Run) {
 		return
 	}
 	r.Steps++
-	got, err := store.Load(ctx)
-	if err != nil || vsCanon(got) != c.canonNext {
-		r.Fail("save_load_mismatch", fmt.Sprintf("load after save of rev %d: err=%v", c.next.Revision, err), nil)
+	got, ok := c.loadSaved("new", c.next)
+	if !ok {
 		return
 	}
-	c.checkLoaded("after-save", got)
+	c.encodeLikeCompaction(got)
+	if r.Failed() {
+		return
+	}
 	newBytes, err := os.ReadFile(filepath.Join(c.workDir, vsStateFile))
 	if err != nil {
 		r.Infra("read state file: %v", err)
@@ -263,10 +332,7 @@ func runC19(t *testing.T, r *simkit.Run) {
 			r.Fail("save_error", fmt.Sprintf("saving a valid state failed: %v", err), nil)
 			return
 		}
-		got, err := store.Load(ctx)
-		if err != nil || vsCanon(got) != vsCanon(c.third) {
-			r.Fail("save_load_mismatch", fmt.Sprintf("load after third save: err=%v", err), nil)
-		}
+		c.loadSaved("third", c.third)
 		r.Steps++
 		return
 	}
@@ -289,6 +355,64 @@ func runC19(t *testing.T, r *simkit.Run) {
 	c.corrupt(newBytes, got)
 	if all && !r.Failed() {
 		r.Nontrivial = true
+	}
+}
+
+// loadSaved: after a Save that returned nil, a fresh Store (as after a restart)
+// must load exactly the logical state that was handed to Save, carrying a
+// checksum that covers it - whatever Checksum field the caller's value had.
+func (c *vsC19) loadSaved(what string, saved state.ClusterState) (state.ClusterState, bool) {
+	r := c.r
+	sum, _ := state.Checksum(saved)
+	sig := "fresh"
+	if saved.Checksum == "" {
+		sig = "checksum-unset"
+	} else if saved.Checksum != sum {
+		sig = "stale-checksum"
+	}
+	got, err := statefile.New(filepath.Join(c.workDir, vsStateFile)).Load(context.Background())
+	if err != nil {
+		r.FailSig("save_installed_unloadable_file", sig, fmt.Sprintf("Save of the %s state (rev %d applied %d, struct carried checksum %q, content checksum %s) returned nil, but a fresh Store cannot load the file: %v",
+			what, saved.Revision, saved.AppliedRaftIndex, saved.Checksum, sum, err), map[string]any{"carried": sig})
+		return got, false
+	}
+	if vsPayload(got) != vsPayload(saved) {
+		r.FailSig("save_load_mismatch", sig, fmt.Sprintf("load after save of the %s state: got rev %d applied %d, saved rev %d applied %d", what, got.Revision, got.AppliedRaftIndex, saved.Revision, saved.AppliedRaftIndex), nil)
+		return got, false
+	}
+	c.checkLoaded("after save of "+what, got)
+	return got, !r.Failed()
+}
+
+// encodeLikeCompaction mirrors what the raft log compactor does with a
+// published state (Service.compactLogAt): advance the applied index over
+// non-command entries, encode the value as it is. The payload must decode to
+// exactly that state with a valid checksum (it becomes a raft snapshot that
+// recovery and followers decode with the same state.Decode as the state file).
+func (c *vsC19) encodeLikeCompaction(loaded state.ClusterState) {
+	r := c.r
+	st := loaded.Clone()
+	bump := uint64(r.Tape.Intn(4))
+	st.AppliedRaftIndex += bump
+	data, err := state.Encode(st)
+	if err != nil {
+		r.Fail("encode_error", fmt.Sprintf("state.Encode of a loaded state with applied index +%d: %v", bump, err), nil)
+		return
+	}
+	dec, err := state.Decode(data)
+	if err != nil {
+		r.FailSig("encoded_state_undecodable", fmt.Sprintf("bump=%v", bump > 0), fmt.Sprintf("state.Encode of a loaded state (rev %d) with the applied index advanced by %d produced a payload that state.Decode rejects: %v", st.Revision, bump, err), nil)
+		return
+	}
+	if vsPayload(dec) != vsPayload(st) {
+		r.Fail("encode_decode_mismatch", fmt.Sprintf("Encode/Decode of rev %d applied %d returns rev %d applied %d", st.Revision, st.AppliedRaftIndex, dec.Revision, dec.AppliedRaftIndex), nil)
+		return
+	}
+	c.checkLoaded("compaction-style encode", dec)
+	r.Logf("compaction-style encode bump=%d ok", bump)
+	r.Probe("compaction_encode.checked")
+	if bump > 0 {
+		r.Probe("compaction_encode.with_stale_checksum")
 	}
 }
 
@@ -429,7 +553,7 @@ func (c *vsC19) checkDisk(s vsCrashSnap, d vsDisk) {
 		if r.Failed() {
 			return
 		}
-		cg := vsCanon(got)
+		cg := vsPayload(got) // logical content; the checksum was validated against it just above
 		switch {
 		case cg == c.canonNext:
 			outcome = "new"
@@ -459,9 +583,13 @@ func (c *vsC19) checkDisk(s vsCrashSnap, d vsDisk) {
 			r.FailSig("later_save_failed", sig, fmt.Sprintf("%s: a later Save fails: %v", where, err), nil)
 			return
 		}
-		got, err := store.Load(ctx)
-		if err != nil || vsCanon(got) != vsCanon(c.third) {
+		got, err := statefile.New(filepath.Join(dir, vsStateFile)).Load(ctx)
+		if err != nil || vsPayload(got) != vsPayload(c.third) {
 			r.FailSig("later_save_load_mismatch", sig, fmt.Sprintf("%s: after a later Save, Load returns err=%v rev=%d (want rev=%d)", where, err, got.Revision, c.third.Revision), nil)
+			return
+		}
+		c.checkLoaded(where+", later save", got)
+		if r.Failed() {
 			return
 		}
 		r.Probe("later_save.checked")
